@@ -100,7 +100,8 @@ def gen(rng, idx, tier):
     kern = rng.choice(["aligned", "aligned", "ragged"])
     for _attempt in range(8):
         ds = masters.family(rng, n_glyphs=rng.choice([4, 5, 6]), kerning=kern, anchors=True,
-                            missing_glyph=False, extra_glyph=False, rules=0, comp_2x2=False,
+                            missing_glyph=False, extra_glyph=False, rules=0,
+                            comp_2x2=rng.random() < 0.3,
                             kinds=rng.choice([["line", "curve"], ["line", "qcurve"], ["line"]]),
                             coord_mode=rng.choice(["int", "half"]), kern_values="int",
                             sparse=rng.random() < 0.25)
@@ -176,7 +177,11 @@ def outline_points(tt, name):
     if "glyf" in tt:
         g = tt["glyf"][name]
         if g.isComposite():
-            return ("composite", [(c.glyphName, c.x, c.y) for c in g.components])
+            # the 2x2 part cannot vary in a variable font: it is part of the structure that has
+            # to equal the master's
+            return ("composite", [(c.glyphName, c.x, c.y) for c in g.components], tuple(
+                tuple(round(v, 4) for row in getattr(c, "transform", ((1, 0), (0, 1))) for v in row)
+                for c in g.components))
         if g.numberOfContours <= 0:
             return ("empty", [])
         return ("simple", [(x, y) for x, y in g.coordinates], tuple(g.endPtsOfContours),
